@@ -184,6 +184,14 @@ def run_case(rs, ctx):
             per_arm[a][1].append(r)
             late_with_rows |= a in late_arms
         Q = gen.gen_contexts(rs, 5, nf) + [list(rows["X"][int(rs.integers(len(rows["X"])))])]
+        if is_tree:
+            # queries a hair above / below the midpoints between stored values (where split thresholds lie): scikit-learn
+            # compares in float32, so these decide whether the library really asks the fitted tree
+            for eps in (1e-9, -1e-9, 1e-12):
+                q = list(Q[int(rs.integers(len(Q)))])
+                j = int(rs.integers(nf))
+                q[j] = (math.floor(q[j]) + 0.5) * (1.0 + eps)
+                Q.append(q)
         wit["queries"] = Q
         try:
             n_cells = check_tree(m, cfg, per_arm, Q, ctx, wit, rs) if is_tree else check_clusters(m, cfg, rows, Q, ctx, wit)
